@@ -2091,6 +2091,12 @@ class ListSelector(Selector):
         self._validate_type(val)
         if val is not None:
             for o in val:
+                # allow_None is about the whole value, not about its items
+                if self.check_on_set and o is None and o not in self.objects:
+                    raise ValueError(
+                        f"{_validate_error_prefix(self)} does not accept None "
+                        "as an item unless it is one of the objects."
+                    )
                 super()._validate_value(o)
 
     def _update_state(self):
